@@ -193,7 +193,8 @@ func (b *TemplateBuilder) buildTranslate() {
 		}
 		strTrace := fmt.Sprintf("%s -> %s",
 			leftPartString, rightPartString)
-		caseCode += fmt.Sprintf("\n\t\tfmt.Printf(\"look ahead %%s, %s, go to state %%d\\n\", look, s)\n", strTrace)
+		// the rule text is an argument, not part of the format: it may contain '%'
+		caseCode += fmt.Sprintf("\n\t\tfmt.Printf(\"look ahead %%s, %%s, go to state %%d\\n\", look, %q, s)\n", strTrace)
 	}
 	b.ReduceTrace = caseCode
 }
